@@ -98,8 +98,14 @@ Definition merge_units_ok (directed : bool) (ins outs : list line) : bool :=
   let V := all_pts ins ++ all_pts outs in
   if directed then mset_eqb (units_dir V (all_segs ins)) (units_dir V (all_segs outs))
   else mset_eqb (units_undir V (all_segs ins)) (units_undir V (all_segs outs)).
+(* vertices (this is where zero-length lines and repeated points live) lie on the other linework *)
+Definition pt_on_lines (v : zpt) (ls : list line) : bool :=
+  existsb (fun s => on_segb v (fst s) (snd s)) (flat_map segs_of_line ls).
+Definition merge_pts_ok (ins outs : list line) : bool :=
+  forallb (fun v => pt_on_lines v outs) (flat_map (fun s => [fst s; snd s]) (flat_map segs_of_line ins))
+  && forallb (fun v => pt_on_lines v ins) (flat_map (fun s => [fst s; snd s]) (flat_map segs_of_line outs)).
 Definition merge_check (directed : bool) (ins outs : list line) : bool :=
-  merge_units_ok directed ins outs && merge_nodes_ok directed ins outs.
+  merge_units_ok directed ins outs && merge_nodes_ok directed ins outs && merge_pts_ok ins outs.
 
 (* ================================================================ noding *)
 Definition same_side (x y : Z) : bool := ((0 <? x) && (0 <? y)) || ((x <? 0) && (y <? 0)).
@@ -155,8 +161,10 @@ Definition mid2 (s : seg) : zpt := (fst (fst s) + fst (snd s), snd (fst s) + snd
 Definition node_disjoint_ok (outs : list line) : bool := all_pairs_ok seg_ok (all_segs outs).
 Definition node_kernel_agrees (outs : list line) : bool :=
   all_pairs_ok (fun s t => Bool.eqb (seg_ok s t) (seg_ok_kernel s t)) (all_segs outs).
-Definition node_in_on_out (ins outs : list line) : bool :=
-  forallb (fun v => existsb (fun s => on_segb v (fst s) (snd s)) (flat_map segs_of_line outs)) (all_pts ins).
+(* every input vertex is on the output linework — to within the tolerance: a vertex inside another line's segment stays
+   there only up to the rounding of that segment's other nodes *)
+Definition node_in_on_out (tn td : Z) (ins outs : list line) : bool :=
+  forallb (near_any tn td 1 (flat_map segs_of_line outs)) (all_pts ins).
 Definition node_out_near_in (tn td : Z) (ins outs : list line) : bool :=
   forallb (near_any tn td 1 (flat_map segs_of_line ins)) (all_pts outs).
 (* sampled point-set clauses: every sample of the input linework is within twice the tolerance of the output linework and
@@ -167,7 +175,7 @@ Definition node_cover_in (tn td : Z) (ins outs : list line) : bool :=
 Definition node_cover_out (tn td : Z) (ins outs : list line) : bool :=
   forallb (fun s => near_any (4 * tn) td 2 (flat_map segs_of_line ins) (mid2 s)) (all_segs outs).
 Definition noding_check (tn td : Z) (ins outs : list line) : bool :=
-  node_disjoint_ok outs && node_in_on_out ins outs && node_out_near_in tn td ins outs
+  node_disjoint_ok outs && node_in_on_out tn td ins outs && node_out_near_in tn td ins outs
   && node_cover_in tn td ins outs && node_cover_out tn td ins outs.
 
 (* ================================================================ polygonizing *)
